@@ -40,7 +40,8 @@ type Time time.Time
 func NewTimeFromTimeSinceGPSEpoch(sinceEpoch time.Duration) Time {
 	t := gpsEpochTime.Add(sinceEpoch)
 	for _, ls := range leapSecondsTable {
-		if ls.Time.Before(t) {
+		// the leap second is inserted after the last regular second (ls.Time)
+		if !t.Before(ls.Time.Add(ls.Duration)) {
 			t = t.Add(-ls.Duration)
 		}
 	}
@@ -53,7 +54,8 @@ func NewTimeFromTimeSinceGPSEpoch(sinceEpoch time.Duration) Time {
 func (t Time) TimeSinceGPSEpoch() time.Duration {
 	var offset time.Duration
 	for _, ls := range leapSecondsTable {
-		if ls.Time.Before(time.Time(t)) {
+		// the leap second is inserted after the last regular second (ls.Time)
+		if !time.Time(t).Before(ls.Time.Add(ls.Duration)) {
 			offset += ls.Duration
 		}
 	}
